@@ -1320,6 +1320,15 @@ fn rules_d() -> Vec<String> {
                     }
                 }
             }
+            // every ordered pair of party spellings (same restriction twice, contradictory pairs:
+            // every option of a rule has to hold, whatever its position)
+            let parties = ["3p", "1p", "~3p", "~1p", "third-party", "first-party", "~third-party", "~first-party"];
+            for p1 in parties {
+                for p2 in parties {
+                    out.push(assemble(exception, form, &[p1.to_string(), p2.to_string()]));
+                    out.push(assemble(exception, form, &[p1.to_string(), "script".to_string(), p2.to_string()]));
+                }
+            }
             // option order: non-type options before, between and after the type options
             for party in ["3p", "~third-party", "first-party"] {
                 for types in [vec!["script", "image"], vec!["~script", "~xhr"], vec!["document", "font"], vec![]] {
